@@ -247,9 +247,12 @@ func TestDriverTwin(t *testing.T) {
 	var straddleUsed int64
 	rng := NewRng(seed)
 	side := NewSidecar("twin", seed,
-		"case = one block of the generated history (a destroy-heavy multi-call or a staking-precompile transfer() first, then 0-6 transactions of 17 kinds x 6 malformations x fee variants, "+
+		"case = one block of the generated history (a destroy-heavy multi-call or a staking-precompile transfer() first, calls to an ERC-20 precompile deployed BY MESSAGE in the previous block, then 0-6 transactions of 21 kinds "+
+			"(incl. constructors calling custom precompiles, calls to the address the next deployment will get, same-nonce pairs) x 6 malformations x fee variants, a MsgDeployErc20ContractRequest by a whitelisted / other sender last, only or first in the block, "+
 			"feemarket minimum changed between blocks now and then) executed by k application instances started from identical genesis under different node-local conditions "+
-			"(minimum-gas-prices, evm.tracer none/access_list/struct/json/markdown, GOMAXPROCS, CheckTx traffic, restarts from the database, wall-clock instant incl. one block straddling a vesting end time, Go map seeds); "+
+			"(minimum-gas-prices, evm.tracer none/access_list/struct/json/markdown, GOMAXPROCS, CheckTx traffic in block or reverse order, restarts from the database, wall-clock instant incl. one block straddling a vesting end time, Go map seeds, "+
+			"and each replica's own request traffic: eth_call / estimateGas / cpc queries pinned to OLDER heights, CheckTx / simulation / eth_call between FinalizeBlock and Commit, simulated deployments never included; replica 0 serves none), "+
+			"and once more by a FRESH operating-system process (one replica, no traffic) whose per-block output must equal replica 0's; a replica on which FinalizeBlock panics while others execute the block is a hit; "+
 			"non-trivial = at least one transaction executed (code 0) and (a destroy / transfer() special or >= 3 transactions); distinct by (special, kinds, malformations, result classes)")
 	cases := NewCases(dir, "From Evm Require Import CorrBase Destroy Nondet CorrNondet.", "nd_mismatches")
 	w := newWorld(t, k, side)
@@ -378,6 +381,7 @@ func TestDriverTwin(t *testing.T) {
 		// ---- execution on every replica
 		height := w.lead.Height
 		projs := make([]blockProj, len(w.reps))
+		var halted []string
 		var res0 *abci.ResponseFinalizeBlock
 		for i, rep := range w.reps {
 			if special == "destroy-straddle" && !isChild {
@@ -390,14 +394,43 @@ func TestDriverTwin(t *testing.T) {
 					}
 				}
 			}
-			res := rep.runOn(w, raws, r.Fork(uint64(1000+i)))
+			res, err := rep.runOn(w, raws, r.Fork(uint64(1000+i)))
+			if err != nil {
+				halted = append(halted, fmt.Sprintf("%s: %.300s", w.describeCfgs()[i], err.Error()))
+				continue
+			}
 			require.Equal(t, len(raws), len(res.TxResults))
 			projs[i] = project(res)
-			if i == 0 {
+			if res0 == nil {
 				res0 = res
 			}
 		}
+		if len(halted) > 0 {
+			// a node on which FinalizeBlock / Commit panics or fails halts; the others go on
+			var gd []string
+			for _, g := range gen {
+				gd = append(gd, g.Kind+"/"+g.Mal)
+			}
+			desc := blockDesc{Index: b, Height: height, Special: special, Txs: gen, Replicas: w.describeCfgs()}
+			if len(halted) == len(w.reps) {
+				t.Fatalf("block %d (%s) cannot be executed on any replica: %s", b, strings.Join(gd, ","), halted[0])
+			}
+			side.Hit("C01/twin/block_execution_halts_on_some_replicas/"+special,
+				fmt.Sprintf("block %d (height %d, %s): %d of %d replicas executed the block, the others halted: %s", b, height, strings.Join(gd, ","), len(w.reps)-len(halted), len(w.reps), strings.Join(halted, " | ")), desc)
+			side.Count("forked_at_block")
+			side.Case(b, fmt.Sprintf("halted-%d", b), false, desc)
+			break
+		}
 
+		if dk := os.Getenv("VERIF_TWIN_DEBUG_KIND"); dk != "" {
+			for ti, g := range gen {
+				if g.Kind == dk {
+					for ri := range projs {
+						fmt.Fprintf(os.Stderr, "DEBUG block %d tx %d %s/%s replica %d: %s/%d gas %d/%d\n", b, ti, g.Kind, g.Mal, ri, projs[ri].Txs[ti].Codespace, projs[ri].Txs[ti].Code, projs[ri].Txs[ti].GW, projs[ri].Txs[ti].GU)
+					}
+				}
+			}
+		}
 		// ---- oracle: any difference between two executions
 		kindOf := func(tx int) string {
 			if tx < 0 || tx >= len(gen) {
@@ -526,7 +559,12 @@ func TestDriverTwin(t *testing.T) {
 	// ---- the same history in a fresh operating-system process
 	if EnvInt("VERIF_TWIN_FRESH_PROCESS", 1) != 0 {
 		child, problem := freshProcess(t, dir, seed, n, straddleUsed)
-		require.Emptyf(t, problem, "fresh process: %s", problem)
+		if problem != "" && len(recs) > 0 {
+			// this process executed the history, the fresh one could not
+			side.Hit("C01/twin/fresh_process_halts/history", "the history this process executed cannot be executed by a fresh process: "+problem, descs[0])
+			child = nil
+			recs = nil
+		}
 		side.Count("fresh_process:blocks_compared")
 		side.Histogram["fresh_process:blocks_compared"] = 0
 		for i := range recs {
